@@ -834,7 +834,9 @@ func (e *cenv) call(x *CExpr) Value {
 			a0 := fx.heapGet(e.old, allocKey, SInt)
 			switch s := v.(type) {
 			case VSlice:
-				return VBool{ts.Le(a0, s.arr)}
+				// array ids of arrays that belong to an object (embedded arrays, and the arrays make() creates, which are
+				// numbered after the allocation they come from) live in the negative id space -(ref*1024+tag)-1
+				return VBool{ts.Or(ts.Le(a0, s.arr), ts.Le(s.arr, ts.Sub(ts.Mul(ts.Int(-1024), a0), ts.Int(1))))}
 			case VPtr:
 				return VBool{ts.Le(a0, s.ref)}
 			}
